@@ -44,7 +44,7 @@ def RunsF (code : Code) (lim : Limits) (s : VMState) (fn : String) (rest : List 
     (ip : Nat) (stk : List SVal) (mem : List (Int × Val)) (out : World)
     (kd msg : String) (sp : Span) (out' : World) : Prop :=
   ∀ k, ∃ k' s', execHN code lim k' (mkS s (⟨fn, ip⟩ :: rest) mp k stk mem out) = .intr (.fatal kd msg sp) s' ∧
-    s'.st = { s.st with heap := out'.heap, out := out'.out } ∧ s'.globals = s.globals ∧ s'.handlers = s.handlers
+    s'.st = { s.st with heap := out'.heap, out := out'.out } ∧ s'.globals = s.globals
 
 section
 variable {code : Code} {lim : Limits} {s : VMState} {fn : String} {rest : List Frame} {mp : Int}
@@ -89,8 +89,8 @@ theorem RunsF.of_runsFatal {ip stk mem out kd msg sp}
     (h : RunsFatal code lim (baseOf s fn rest mp out) ip stk mem kd msg sp) :
     RunsF code lim s fn rest mp ip stk mem out kd msg sp out := by
   intro k
-  obtain ⟨k', s', e, h1, _, h3, h4⟩ := h k
-  exact ⟨k', s', execHN_of_execN_fatal code lim k' _ _ _ _ _ e, h1, h3, h4⟩
+  obtain ⟨k', s', e, h1, _, h3, _⟩ := h k
+  exact ⟨k', s', execHN_of_execN_fatal code lim k' _ _ _ _ _ e, h1, h3⟩
 
 theorem Runs.of_exec1 {ip stk mem out ip' stk' mem' out'}
     (h : ∀ k, exec1 code lim (mkS s (⟨fn, ip⟩ :: rest) mp k stk mem out) =
@@ -203,6 +203,14 @@ theorem println_run (vals : List Val) (sp : Span) (st : St) :
   | none => rfl
   | some ds => rfl
 
+theorem throw_run (v : Val) (sp : Span) (st : St) :
+    callBuiltin "throw" [v] sp st = match display st.heap 1000000 v with
+      | some d => (.error (.throw d sp), st)
+      | none => (.error (.unsupported "display of this value"), st) := by
+  show ((displayM v >>= fun d => throwCtl (.throw d sp)) : M Val) st = _
+  rw [M_bind, displayM_run]
+  cases display st.heap 1000000 v <;> rfl
+
 theorem popN_append (t : VMState) (svs stk : List SVal) (h : t.stack = svs ++ stk) :
     popN svs.length t = some (svs.map (·.v), { t with stack := stk }) := by
   induction svs generalizing t with
@@ -241,5 +249,65 @@ theorem mkS_callVal_println (code : Code) (lim : Limits) (s : VMState) (fn : Str
   rw [popN_append _ svs stk rfl]
   simp only [runM, println_run, ht]
   simp only [advance, Nat.add_assoc]
+
+/-! ## `try` / `throw` -/
+
+/-- The base state with another handler stack. -/
+def withH (s : VMState) (hs : List Handler) : VMState := { s with handlers := hs }
+
+theorem mkS_setTry (code : Code) (lim : Limits) (s : VMState) (fn : String) (ip : Nat) (rest : List Frame)
+    (mp : Int) (k : Nat) (stk : List SVal) (mem : List (Int × Val)) (out : World) (c : List (RInstr × Span))
+    (hf : findCode code fn = some c) (tfn : String) (l : Nat) (sp : Span)
+    (hx : c[ip]? = some (.setTry tfn l, sp)) :
+    exec1 code lim (mkS s (⟨fn, ip⟩ :: rest) mp k stk mem out) =
+      .next (mkS (withH s (⟨⟨tfn, l⟩, rest.length + 1, stk.length, mp⟩ :: s.handlers)) (⟨fn, ip + 1⟩ :: rest) mp
+        (k + 1) stk mem out) := by
+  have hfe := fetch_mkS code s fn ip rest mp k stk mem out c _ hf hx
+  unfold exec1
+  rw [hfe]
+  simp only [step, mkS, withH, advance, List.length_cons, Nat.add_assoc]
+
+theorem mkS_popTry (code : Code) (lim : Limits) (s : VMState) (fn : String) (ip : Nat) (rest : List Frame)
+    (mp : Int) (k : Nat) (stk : List SVal) (mem : List (Int × Val)) (out : World) (c : List (RInstr × Span))
+    (hf : findCode code fn = some c) (sp : Span) (h : Handler) (hs : List Handler)
+    (hx : c[ip]? = some (.popTry, sp)) :
+    exec1 code lim (mkS (withH s (h :: hs)) (⟨fn, ip⟩ :: rest) mp k stk mem out) =
+      .next (mkS (withH s hs) (⟨fn, ip + 1⟩ :: rest) mp (k + 1) stk mem out) := by
+  have hfe := fetch_mkS code (withH s (h :: hs)) fn ip rest mp k stk mem out c _ hf hx
+  unfold exec1
+  rw [hfe]
+  simp only [step, mkS, withH, advance, Nat.add_assoc]
+
+/-- The `throw` instruction: the message is displayed and the interrupt raised. -/
+theorem mkS_throw (code : Code) (lim : Limits) (s : VMState) (fn : String) (ip : Nat) (rest : List Frame)
+    (mp : Int) (k : Nat) (stk : List SVal) (mem : List (Int × Val)) (out : World) (c : List (RInstr × Span))
+    (hf : findCode code fn = some c) (sp : Span) (v : Val) (o : Option Org) (d : String)
+    (hx : c[ip]? = some (.throw, sp)) (hd : display out.heap 1000000 v = some d) :
+    exec1 code lim (mkS s (⟨fn, ip⟩ :: rest) mp k (⟨v, o⟩ :: stk) mem out) =
+      .intr (.throw d sp) (mkS s (⟨fn, ip + 1⟩ :: rest) mp (k + 1) stk mem out) := by
+  have hfe := fetch_mkS code s fn ip rest mp k (⟨v, o⟩ :: stk) mem out c _ hf hx
+  unfold exec1
+  rw [hfe]
+  simp only [step, mkS, pop1, runM, displayM_run, hd, advance, Nat.add_assoc]
+
+/-- **Exception dispatch.** The newest handler was installed in the activation `⟨·, ·⟩ :: rest`
+with operand stack `stk` and memory pointer `hmp`; the exception is raised `frames'` activations
+deeper with `xs` more operands: the VM continues at the handler's target in that activation, with
+the error object (freshly allocated) on the operand stack `stk`. -/
+theorem dispatch_mkS (s : VMState) (tfn : String) (tl : Nat) (hmp : Int) (hs : List Handler)
+    (frames' : List Frame) (f : Frame) (rest : List Frame) (mp' : Int) (K : Nat) (xs stk : List SVal)
+    (mem' : List (Int × Val)) (w' : World) (msg : String) (tsp : Span) :
+    dispatch msg tsp (mkS (withH s (⟨⟨tfn, tl⟩, rest.length + 1, stk.length, hmp⟩ :: hs)) (frames' ++ f :: rest) mp' K
+        (xs ++ stk) mem' w') =
+      .next (mkS (withH s (⟨⟨tfn, tl⟩, rest.length + 1, stk.length, hmp⟩ :: hs)) (⟨tfn, tl⟩ :: rest) hmp K
+        (⟨.ref w'.heap.size, none⟩ :: stk) mem' ⟨w'.heap.push (errCell msg tsp), w'.out⟩) := by
+  unfold dispatch
+  simp only [mkS, withH]
+  have h1 : (frames' ++ f :: rest).length - (rest.length + 1) = frames'.length := by
+    simp only [List.length_append, List.length_cons]; omega
+  have h2 : (xs ++ stk).length - stk.length = xs.length := by
+    simp only [List.length_append]; omega
+  simp only [h1, h2, List.drop_left]
+  rfl
 
 end HmsProofs.Sim
